@@ -34,6 +34,18 @@ Text == <<"p">> \o [i \in 1..(nfields - 1) |-> "|"] \o Sym(last) \o (IF nl THEN 
 TrimNL(t) == IF t # <<>> /\ t[Len(t)] = "NL" THEN SubSeq(t, 1, Len(t) - 1) ELSE t
 Paint(t) == <<"ESC">> \o TrimNL(t) \o <<"ESC">> \o (IF TrimNL(t) # t THEN <<"NL">> ELSE <<>>)
 Strip(t) == SelectSeq(t, LAMBDA x : x # "ESC")
+
+\* ---- the payload of an AGGREGATE message (mapr/client/aggregate.go Aggregate(), makeFields()): group key, sample
+\* count, then fields "name<kv>value", all joined by the aggregate delimiter, normally with a trailing delimiter.  A
+\* value taken from a log line may itself contain either delimiter, so every part shape must be survivable.
+AggSamples == {"num", "bad", ""}
+AggParts   == {"kv", "bare", "empty", "kvkv"}       \* name<kv>value | no kv delimiter | empty | two kv delimiters
+SeqUpTo(S, n) == UNION {[1..k -> S] : k \in 0..n}
+AggShapes(n) == {[samples |-> sm, parts |-> ps, trail |-> tr] : sm \in AggSamples, ps \in SeqUpTo(AggParts, n), tr \in BOOLEAN}
+\* Ref: the count of a well-formed field is taken over iff the record has a numeric sample count and >= 4 parts
+AggNParts(a) == 2 + Len(a.parts) + (IF a.trail THEN 1 ELSE 0)
+AggAccepted(a) == AggNParts(a) >= 4 /\ a.samples = "num"
+AggCounted(a) == AggAccepted(a) /\ \E i \in 1..Len(a.parts) : a.parts[i] \in {"kv", "kvkv"}
 \* ---- Ref
 NeverCrashes == ~Crashed
 Lossless == Strip(Paint(Text)) = Text
